@@ -58,6 +58,9 @@ func (p *Parser) parseWithStatement() (ast.Statement, error) {
 	// Parse the main statement that follows the WITH clause
 	mainStmt, err := p.parseMainStatementAfterWith()
 	if err != nil {
+		if isRecursionLimit(err) {
+			return nil, err // a limit violation keeps its own code
+		}
 		return nil, goerrors.InvalidCTEError(
 			fmt.Sprintf("error parsing statement after WITH clause: %v", err),
 			models.Location{},
